@@ -429,6 +429,10 @@ def check(ctx):
     # "the array's metadata is kept": provenance rule of C16 restricted to the arrangement operations
     from . import c16
     from ..report import Renamed
+    # broadcast / align_dims / broadcast_arrays line dimensions up with reshape(): its pipeline rules (shared with C11)
+    from . import c11
+    ctx.rule('R9', 'reshape pipeline behind broadcast (shared with C11)', 3)
+    c11.rule_reshape(Renamed(ctx, {'*': 'R9'}))
     c16.rule_carried(Renamed(ctx, {'*': 'R8'}), only=['transpose', 'swapaxes', 'rollaxis', 'newaxis', 'squeeze', 'repeat', 'broadcast', 'reshape'])
     ctx.not_decided += ['element-wise equality', 'composition laws (transpose(p).transpose(p^-1) == a)', 'numpy.rollaxis / repeat / squeeze semantics']
     ctx.trusted += ['ndarray.transpose / repeat / squeeze and np.rollaxis documented semantics']
